@@ -49,6 +49,10 @@ where
     // a list of element names where we don't do indentation for the immediate content
     // suppress: &'a [NameId],
     stack: Vec<StackEntry>,
+    // whether the node we started from sits in the scope of an
+    // xml:space="preserve" of one of its ancestors; determined at the first
+    // token
+    inherited_preserve: Option<bool>,
 }
 
 impl<'a, IsSuppressed, IsInline> Pretty<'a, IsSuppressed, IsInline>
@@ -62,6 +66,7 @@ where
             is_suppressed,
             is_inline,
             stack: Vec::new(),
+            inherited_preserve: None,
         }
     }
 
@@ -86,6 +91,23 @@ where
                 StackEntry::Mixed => return false,
             }
         }
+        self.inherited_preserve.unwrap_or(false)
+    }
+
+    // xml:space applies to everything within the element that carries it, so
+    // when we start at an inner node its ancestors decide the initial state
+    fn ancestors_preserve(&self, node: Node) -> bool {
+        let mut current = self.xot.parent(node);
+        while let Some(ancestor) = current {
+            if self.xot.is_element(ancestor) {
+                match self.element_space(ancestor) {
+                    Space::Preserve => return true,
+                    Space::Default => return false,
+                    Space::Empty => (),
+                }
+            }
+            current = self.xot.parent(ancestor);
+        }
         false
     }
 
@@ -98,7 +120,7 @@ where
             return 0;
         }
         let mut count = 0;
-        let mut in_preserve = false;
+        let mut in_preserve = self.inherited_preserve.unwrap_or(false);
         for entry in self.stack.iter() {
             match entry {
                 StackEntry::Unmixed(Space::Default) => {
@@ -147,6 +169,9 @@ where
 
     pub(crate) fn prettify(&mut self, node: Node, output_token: &Output) -> (usize, bool) {
         use Output::*;
+        if self.inherited_preserve.is_none() {
+            self.inherited_preserve = Some(self.ancestors_preserve(node));
+        }
         match output_token {
             StartTagOpen(_) => (self.get_indentation(), false),
             Comment(_) | ProcessingInstruction(..) => (self.get_indentation(), self.get_newline()),
